@@ -51,7 +51,13 @@ atomic(os.path.join(ROOT, "MANIFEST.json"), m)
 # known_findings.json = merge of findings/C*.json (one file per property, hand-written, committed)
 fnd = []
 for f in sorted(glob.glob(os.path.join(ROOT, "findings", "C*.json"))):
-    fnd += json.load(open(f))
+    for e in json.load(open(f)):
+        e = dict(e)
+        if e.get("kind") == "fixed":
+            e["line"] = "fixed: property=%s %s %s" % (e["property"], e.get("commit", "?"), " ".join(str(e.get("what", "")).split()))
+        else:
+            e["line"] = "known: property=%s %s" % (e["property"], " ".join(str(e.get("what", "")).split()))
+        fnd.append(e)
 atomic(os.path.join(ROOT, "known_findings.json"), {
     "_comment": "Genuine defects of keep-core found by the checks (merged from findings/C*.json by mkmanifest.py; never written by a check run). kind=known: recorded, matched by regex on '<op>\\t<impl observation>\\t<monitor verdict>' and printed as KNOWN-FINDING; kind=fixed: repaired by a 'fix:' commit in /repo, suppresses nothing.",
     "findings": fnd})
